@@ -1,7 +1,7 @@
 CONSTANTS
   MaxK = 3
   AllowN = 9
-  BigAllow = {}
+  BigAllow = {50}
   SimC = 4
   SimF = 4
   SampleMod = 5
@@ -9,6 +9,6 @@ CONSTANTS
   ExportOn = TRUE
 INIT Init
 NEXT Next
-INVARIANTS InvDomain InvOnlyAssigned InvReportLimit InvRewardOnlyReported InvGradeConsistent InvAnswerBacked InvConsensusHonoured InvCandidates InvPermutation
+INVARIANTS InvDomain InvOnlyAssigned InvReportLimit InvRewardOnlyReported InvReportersRewarded InvGradeConsistent InvReportHonoured InvAnswerBacked InvConsensusHonoured InvCandidates InvPermutation
 ACTION_CONSTRAINT Export
 CHECK_DEADLOCK FALSE
